@@ -74,7 +74,7 @@ def gen_expr(rng):
 # Expressions whose value is the same for every document: each argument of a call is evaluated on the focus of the
 # call, whatever the other arguments did (XPath 1.0 and the compatibility mode take the first node of a node-set and
 # abandon the rest of its evaluation)
-INVARIANTS = [
+_INV1 = [
     ("count(//*[concat(*, '|', name()) != concat(string(*[1]), '|', name())])", 0),
     ("count(//*[not(contains(concat(*, '|', name()), concat('|', name())))])", 0),
     ("count(//*[string-length(concat(.//*, name())) != string-length(string((.//*)[1])) + string-length(name())])", 0),
@@ -82,6 +82,26 @@ INVARIANTS = [
     ("count(//*[starts-with(name(), substring(*, 1, 0)) = false()])", 0),
     ("count(//*[translate(concat(@*, '~', name()), '~', '') != concat(string(@*[1]), name())][not(contains(string(@*[1]), '~'))])", 0),
 ]
+_INV2 = [       # XPath 2.0+: operands of ',' / several range expressions / several sequence arguments on one focus
+    "count(//*[(exists(*), name())[2] != name()])",
+    "count(//*[(not(*), empty(*), name())[3] != name()])",
+    "count(//*[(count(//*), name())[2] != name()])",
+    "count(//*[(name(..), .., name())[last()] != name()])",
+    "count(//*[((1 instance of item()), name())[2] != name()])",
+    "count(//*[not(deep-equal(*, *))])",
+    "count(//*[count(for $x in *, $y in * return 1) != count(*) * count(*)])",
+    "count(//*[*][not(some $x in *, $y in * satisfies $x is $y and local-name() = local-name($y/..))])",
+    "count(//*[*][not(every $x in * satisfies local-name() = local-name($x/..))])",
+    "count(//*[*][insert-before(*/local-name(), 2, local-name())[2] != local-name()])",
+]
+_INV3 = [
+    "count(//*[count(for-each-pair(*, *, function($x, $y) { 1 })) != count(*)])",
+    "count(//*[(head(*), name())[last()] != name()])",
+    "count(//*[(count(outermost(*)), count(innermost(*)), name())[3] != name()])",
+    "count(//*[(*, name())[last()] != name()])",
+]
+INVARIANTS = [(e, w, ('1.0', 'compat')) for e, w in _INV1] + [(e, 0, ('2.0', '3.0', '3.1')) for e in _INV2] + [
+    (e, 0, ('3.0', '3.1')) for e in _INV3]
 
 
 def gen_case(rng, tier):
@@ -142,8 +162,8 @@ def gen_case(rng, tier):
             ops.append({'op': 'clock_jump', 'to': rng.randrange(len(INSTANTS))})
             continue
         if x > 0.88:
-            ops.append({'op': 'invariant', 'k': rng.randrange(len(INVARIANTS)), 'doc': rng.randrange(ndocs),
-                        'mode': rng.choice(['1.0', 'compat'])})
+            k = rng.randrange(len(INVARIANTS))
+            ops.append({'op': 'invariant', 'k': k, 'doc': rng.randrange(ndocs), 'mode': rng.choice(INVARIANTS[k][2])})
             continue
         op = {'op': 'select', 'sel': rng.randrange(nsel), 'doc': rng.randrange(ndocs),
               'vars': rng.randrange(nvs), 'tz': rng.choice(TZS), 'frag': rng.choice([None, None, None, True, False]),
@@ -447,12 +467,14 @@ def run_case(case, world):
             shape.append('gc')
             continue
         if kind == 'invariant':
-            expr, want = INVARIANTS[op['k'] % len(INVARIANTS)]
+            expr, want, _modes = INVARIANTS[op['k'] % len(INVARIANTS)]
             root_ = docs[op['doc'] % len(docs)]['root']
             stats['evaluations'] += 1
             try:
                 if op['mode'] == '1.0':
                     got = elementpath.select(root_, expr, namespaces=dict(NSMAP), parser=elementpath.XPath1Parser)
+                elif op['mode'] in ('2.0', '3.0', '3.1'):
+                    got = elementpath.select(root_, expr, namespaces=dict(NSMAP), parser=parser_class(op['mode']))
                 else:
                     got = elementpath.select(root_, expr, namespaces=dict(NSMAP), parser=elementpath.XPath2Parser,
                                                 compatibility_mode=True)
